@@ -120,7 +120,15 @@ func (s *ftpService) Handle(ctx context.Context, conn net.Conn) error {
 	recv := make(chan string)
 	defer close(recv)
 
-	ftpConn := s.server.newConn(conn, s.driver, recv)
+	// one driver, i.e. one working directory, per connection: the service's own driver only
+	// serves as the template (root directory, initial working directory)
+	driver := s.driver
+	if fs, ok := s.driver.(*Fs); ok && fs.Htfs != nil {
+		session := *fs.Htfs
+		driver = NewFileDriver(&session)
+	}
+
+	ftpConn := s.server.newConn(conn, driver, recv)
 
 	go func() {
 		for msg := range recv {
